@@ -17,7 +17,17 @@ UTF-8) are run through the three real parsers under catch_unwind and a 2 s
 watchdog.  PANIC / HANG / BADSPAN / "no value and no error" of the
 implementation is directly a C12 witness.  The header parser's outcome
 (class, parsed values with spans, error kinds with spans, end position) must
-equal the extracted mirror's — the variant selected by HEADER_FIXED.
+equal the extracted mirror's — the variant selected by HEADER_FIXED and
+DEPTH_FIXED.
+
+Array nesting: `parse_setting` recurses once per '['.  The mirror carries the
+recursion depth and a native-stack budget: `header_depth_unbounded_refuted` (no
+stack is large enough for the code without a nesting limit),
+`header_depth_bounded` (with the limit MAX_SETTING_DEPTH = 64 a stack of 65
+frames is never exhausted) and the totality theorems for that variant.  With
+DEPTH_FIXED the correspondence includes texts nested 63, 64, 65, 1000 and
+100000 deep (on the harness worker and on an 8 MiB stack) and a crash is a
+plain violation.
 
 The yacc and lex parsers are impl-only oracles here (their mirrors are plugged
 in by C10/C11).
@@ -31,6 +41,14 @@ from gen import c12gen
 #   True  = header.rs after the two repairs proposed by this check
 # The coordinator flips this to True in the commit that repairs header.rs.
 HEADER_FIXED = True
+# Array nesting limit (third repair, notes/C12-depth-fix.diff):
+#   False = header.rs without a nesting limit: deep nesting overflows the native stack (known
+#           finding K_STACK); the mirror variant tied is the one without the limit
+#   True  = header.rs with MAX_SETTING_DEPTH: deep-nesting texts are part of the correspondence
+#           (impl = mirror variant 2, exactly) and any crash is a violation
+# The coordinator flips this to True in the commit that adds the limit to header.rs.
+DEPTH_FIXED = True
+MAX_SETTING_DEPTH = 64          # = HeaderModel.MAX_SETTING_DEPTH = header.rs MAX_SETTING_DEPTH
 
 K_ARRAY = "header: unterminated array value never terminates"
 K_U64 = "header: integer literal beyond u64 panics"
@@ -44,6 +62,37 @@ TIMEOUT_ENV = {"GVH_CASE_TIMEOUT_MS": "2000"}
 
 def hx(s):
     return s.encode("utf-8").hex() or "-"
+
+
+DEEP_RECIPE = {}        # text -> python expression regenerating it (deep-nesting cases)
+
+
+def deep_texts():
+    """[(python expression, text)] — deep array nesting around the limit L and far beyond it.
+    The expression (over L) regenerates the text: replay lines of these cases are too long to print."""
+    rec = []
+    pre = '"%grmtools{a: " + '
+    for n in ("(L - 1)", "L", "(L + 1)", "1000", "100000"):
+        rec.append(pre + '"[" * %s + "]" * %s + "}"' % (n, n))          # balanced
+        rec.append(pre + '"[" * %s' % n)                                # unterminated
+    for n in ("(L - 1)", "L", "(L + 1)"):
+        rec.append(pre + '"[" * %s + "1" + "]" * %s + "}"' % (n, n))
+        # multi-byte white space between the brackets shifts every span
+        rec.append('"%%grmtools{a: 7, b: " + " [\\u2028" * %s + "x::y" + "\\x85]" * %s + ", c}"' % (n, n))
+        # the nested array is the last element of every level
+        rec.append(pre + '"[1, \\"s\\", " * %s + "]" * %s + "}"' % (n, n))
+        # siblings of different depth / of the same depth
+        rec.append(pre + '"[" * (%s - 1) + "[], [[]]" + "]" * (%s - 1) + "}"' % (n, n))
+        rec.append(pre + '"[" + ("[" * (%s - 1) + "]" * (%s - 1) + ",") * 3 + "]}"' % (n, n))
+        rec.append(pre + '"[" * %s + ",,,"' % n)                         # separators after the deepest '['
+        rec.append(pre + '"[" * %s + "]" * (%s - 1) + "}"' % (n, n))     # one ']' short
+        rec.append(pre + '"[" * %s + "]" * (%s + 1) + "}"' % (n, n))     # one ']' too many
+        rec.append(pre + '"[" * %s + "99999999999999999999" + "]" * %s + "}"' % (n, n))
+    rec.append(pre + '"[" + "[]," * 200 + "]}"')                        # 200 siblings, depth 2
+    rec.append(pre + '"[" * (L + 1) + "]" * (L + 1) + ", b: [[" + "}"') # only the first error is reported
+    rec.append('"%grmtools{a: [[]], a: " + "[" * (L + 5) + "}"')
+    rec.append('"%grmtools{!a, a: " + "[" * (L + 5) + "]" * (L + 5) + ", a}"')
+    return [(r, eval(r, {"L": MAX_SETTING_DEPTH})) for r in rec]
 
 
 def generate(ctx):
@@ -67,6 +116,22 @@ def generate(ctx):
     # native stack: `[` nested n deep, parsed on an 8 MiB stack (impl only; not sent to the mirror)
     for n in (50, 2000, 60000):
         add("HS", "%grmtools{a: " + "[" * n + "]" * n + "}", "corpus")
+    if DEPTH_FIXED:
+        # deep nesting: full correspondence on the worker stack (both `required`) and on 8 MiB;
+        # the yacc and lex front ends call the section parser first
+        for r, t in deep_texts():
+            add("H0", t, "deep")
+            add("H1", t, "deep")
+            add("HS", t, "deep")
+            DEEP_RECIPE[t] = r
+        for n in (MAX_SETTING_DEPTH + 1, 100000):
+            h = "%grmtools{yacckind: Original(NoAction), a: " + "[" * n
+            DEEP_RECIPE[h] = '"%%grmtools{yacckind: Original(NoAction), a: " + "[" * %d' % n
+            for tail, ws_ in (("", ("L", "YF", "YN")), ("]" * n + "}\n%%\n[a-z] 'A'\n", ("L",)),
+                              ("]" * n + "}\n%start S\n%%\nS: 'a';\n", ("YF", "YN"))):
+                for w in ws_:
+                    add(w, h + tail, "deep")
+                    DEEP_RECIPE.setdefault(h + tail, DEEP_RECIPE[h] + " + %r" % tail)
     for t in c12gen.LEX_CORPUS:
         add("L", t, "corpus")
     for k, t in c12gen.YACC_CORPUS:
@@ -179,16 +244,31 @@ def run(ctx):
     exe = core.build_harness("c12")
     mexe = core.build_model("c12")
     rng = ctx.rng
+    DEEP_RECIPE.clear()
     cases = generate(ctx)
 
-    # ---- mirror first (both variants) on every text: required=1 only for H1 cases, the yacc and
-    # lex parsers call the section parser with required=false before anything else
-    keys = sorted(set((1 if w == "H1" else 0, t) for w, t, _ in cases if w != "HS"))
+    # ---- mirror first (all variants) on every text: required=1 only for H1 cases, the yacc and
+    # lex parsers call the section parser with required=false before anything else.
+    # Variants 0 (as first pinned) and 1 (array-loop and u64 repairs) recurse once per '[' and
+    # re-slice the text at every step: the deep-nesting texts (HS, origin "deep") are not given to
+    # them.  Variant 2 (with the nesting limit) gets every text; the extracted OCaml code needs its
+    # own stack for 200 000-character lists (byte_len is not tail recursive), hence the ulimit.
+    keys = sorted(set((1 if w == "H1" else 0, t) for w, t, o in cases if w != "HS" and o != "deep"))
     mo = core.run_lines([mexe], ["0 %d %s" % (r, hx(t)) for r, t in keys])
     mf = core.run_lines([mexe], ["1 %d %s" % (r, hx(t)) for r, t in keys])
     m_orig = dict(zip(keys, mo))
     m_fixed = dict(zip(keys, mf))
-    tied = m_fixed if HEADER_FIXED else m_orig
+    keys2 = sorted(set((1 if w == "H1" else 0, t) for w, t, o in cases if DEPTH_FIXED or (w != "HS" and o != "deep")))
+    md = core.run_lines(["sh", "-c", "ulimit -s 1000000 2>/dev/null; exec '%s'" % mexe],
+                        ["2 %d %s" % (r, hx(t)) for r, t in keys2])
+    m_depth = dict(zip(keys2, md))
+    # the nesting limit is inert below MAX_SETTING_DEPTH: on the generated texts (nesting < 10) the
+    # mirror with the limit answers exactly as the one without it
+    inert = [k for k in keys if m_fixed[k] != m_depth[k]]
+    ctx.oblige(not inert, "mirror: the nesting limit changes no result on the %d generated texts (first difference: %r)"
+               % (len(keys), (inert[0][1][:200] if inert else None)))
+    tied = m_depth if DEPTH_FIXED else (m_fixed if HEADER_FIXED else m_orig)
+    variant = "repaired + nesting limit" if DEPTH_FIXED else ("repaired" if HEADER_FIXED else "pinned")
 
     # ---- a hang costs 2 s of wall clock.  "Risky" = the pinned mirror runs out of fuel on the text.
     # Before the repair only a sample of the risky cases is run on the implementation.  After it
@@ -196,9 +276,12 @@ def run(ctx):
     # the violation is already established and the remaining risky cases are skipped to stay in time.
     budget = ctx.n(48, 400)
     NOMIRROR = "-"
-    for w, t, _ in cases:
-        if w == "HS":
-            m_orig[(0, t)] = m_fixed[(0, t)] = NOMIRROR
+    for w, t, o in cases:
+        if w == "HS" or o == "deep":
+            rq = 1 if w == "H1" else 0
+            m_orig.setdefault((rq, t), NOMIRROR)
+            m_fixed.setdefault((rq, t), NOMIRROR)
+            m_depth.setdefault((rq, t), NOMIRROR)
 
     def risky(c):
         return m_orig[(1 if c[0] == "H1" else 0, c[1])] == "HANG"
@@ -234,6 +317,7 @@ def run(ctx):
             selected, lines, impl, skipped = selected + rest, lines + l2, impl + i2, 0
 
     ndiff = 0
+    ncorr = 0
     nwitness = 0
     deferred = []      # correspondence-only reports: after the property-level witnesses
     for (w, t, origin), line, out in zip(selected, lines, impl):
@@ -247,6 +331,11 @@ def run(ctx):
             continue
         sline = line if len(line) < 8000 else line[:120] + "...(hex of the text, %d chars)" % len(line)
         replay = "echo '%s' | GVH_CASE_TIMEOUT_MS=2000 .work/target/release/c12" % sline
+        if t in DEEP_RECIPE and len(line) >= 8000:
+            replay = ("python3 -c 'L = %d; print(\"%s\", (%s).encode().hex())' | GVH_CASE_TIMEOUT_MS=2000 .work/target/release/c12"
+                      % (MAX_SETTING_DEPTH, w, DEEP_RECIPE[t].replace("'", "'\\''")))
+        if t in DEEP_RECIPE:
+            ctx.count("deep_" + w)
         base = {"parser": {"H": "GrmtoolsSectionParser::parse (required=%s)%s" % (w == "H1", " on an 8 MiB stack" if w == "HS" else ""), "Y": "ASTWithValidityInfo::%s + YaccGrammar::new_from_ast_with_validity_info" % ("from_str" if w == "YF" else "new, kind " + w[1:]), "L": "LRNonStreamingLexerDef::from_str"}[w[0]],
                 "text": t if len(t) < 4000 else t[:200] + " ...(%d chars)... " % len(t) + t[-100:],
                 "case": sline, "impl": out[:600], "replay_cmd": replay}
@@ -267,7 +356,8 @@ def run(ctx):
             nwitness += 1
             known = None
             if w == "HS":
-                if cls == "CRASH" and "[" * 10000 in t and ("stack" in out or "rc=-6" in out or "rc=-11" in out):
+                # before the nesting limit: the recorded finding; with it a crash is a plain violation
+                if not DEPTH_FIXED and cls == "CRASH" and "[" * 10000 in t and ("stack" in out or "rc=-6" in out or "rc=-11" in out):
                     known = K_STACK
             elif cls in ("PANIC", "HANG"):
                 # every parser starts with the section parser: attribute by the two mirror variants
@@ -275,27 +365,40 @@ def run(ctx):
             elif bad == "BADSPAN" and w == "L" and "NOSPAN" not in out:
                 known = classify_lex_badspan(out, t)
             d = dict(base)
+            if t in DEEP_RECIPE:
+                d["text_expr"] = "L = %d; %s" % (MAX_SETTING_DEPTH, DEEP_RECIPE[t])
             d.update({"violated": "C12: " + bad, "mirror_pinned": mo_[:300], "mirror_repaired": mf_[:300],
+                      "mirror_nesting_limit": m_depth[(rq, t)][:300],
                       "authority": "the implementation itself: the property forbids this outcome for every input"})
             ctx.violation(d, known_key=known)
-        if w in ("H0", "H1"):
+        if w in ("H0", "H1") or (w == "HS" and DEPTH_FIXED):
             # correspondence: class, values, spans, error kinds — the harness appends ` # …` remarks
             # only for span defects, which are reported above
             o = out.split(" # ")[0]
             o = "PANIC" if o.startswith("PANIC") else o
+            ncorr += 1
             if o != mt:
                 ndiff += 1
                 if not bad:
                     # both are value-or-located-errors outcomes but differ: the theorems are about a
                     # mirror that no longer describes header.rs.  No property-level witness.
                     d = dict(base)
-                    d.update({"mirror": mt[:600], "variant": "repaired" if HEADER_FIXED else "pinned",
-                              "broken": "correspondence header.rs <-> C12/HeaderModel.v (C12_header_total, C12_header_spans_wellformed speak about the mirror)"})
+                    if t in DEEP_RECIPE:
+                        d["text_expr"] = "L = %d; %s" % (MAX_SETTING_DEPTH, DEEP_RECIPE[t])
+                    d.update({"mirror": mt[:600], "variant": variant,
+                              "broken": "correspondence header.rs <-> C12/HeaderModel.v (C12_header_total, C12_header_spans_wellformed, C12_header_depth_bounded speak about the mirror)"})
                     deferred.append(d)
                 # (when the implementation's outcome is itself a C12 witness it was reported above)
     for d in deferred[:20]:
         ctx.violation(d, no_input=True)
-    ctx.oblige(ndiff == 0, "header correspondence (impl = %s mirror)" % ("repaired" if HEADER_FIXED else "pinned"))
+    ctx.oblige(ndiff == 0, "header correspondence (impl = %s mirror) on %d runs" % (variant, ncorr))
+    if DEPTH_FIXED:
+        # the deep-nesting texts were really compared (not skipped, not lost): every one of them,
+        # with both values of `required` and on the 8 MiB stack
+        ndeep = sum(1 for (w, t, o), out in zip(selected, impl) if o == "deep" and w[0] == "H" and out.split(" ")[0] in ("OK", "ERRS"))
+        want = 3 * len(deep_texts())
+        ctx.oblige(ndeep == want, "deep-nesting texts answered by the implementation with a value or errors: %d of %d" % (ndeep, want))
+        ctx.coverage["deep_nesting_runs"] = ndeep
     # C12 itself on the sampled inputs: with HEADER_FIXED the run must be free of witnesses; before
     # the repair the only witnesses allowed are the known classes (anything else is a VIOLATION)
     ctx.oblige(len(ctx.violations) == 0, "no unknown C12 witness among the generated texts")
@@ -308,12 +411,17 @@ def run(ctx):
     ctx.coverage["cases_generated"] = len(cases)
     ctx.coverage["predicted_hangs_not_run_on_impl"] = skipped
     ctx.coverage["witnesses_seen"] = nwitness
-    ctx.coverage["header_variant_tied"] = "repaired" if HEADER_FIXED else "pinned"
+    ctx.coverage["header_variant_tied"] = variant
+    ctx.coverage["header_runs_compared"] = ncorr
     ctx.coverage["header_mismatches"] = ndiff
     ctx.assumptions += [
         "regex crate semantics of the four header regexes (leftmost-first, Unicode simple case folding of [A-Z] adds U+017F and U+212A, '.' excludes \\n) are transcribed as scanners",
         "str::to_lowercase on a RE_NAME match maps A-Z to a-z, U+212A to k and leaves the rest",
-        "native stack depth is not modelled (array nesting recurses once per '['); generated nesting stays below 50",
+        ("native stack: modelled as a budget of parse_setting frames (C12_header_depth_bounded: 65 frames always suffice with "
+         "MAX_SETTING_DEPTH = 64); the size of one frame is not modelled — the implementation is run on an 8 MiB stack (HS cases) "
+         "for nesting 63, 64, 65, 1000, 100000" if DEPTH_FIXED else
+         "native stack: header.rs has no nesting limit (C12_header_depth_unbounded_refuted: no stack suffices); the mirror tied "
+         "runs on an unbounded stack and generated nesting stays below 10; the overflow itself is the known finding probed by the HS cases"),
         "yacc and lex parsers: impl-only oracle in this check (no mirror yet)",
         "'promptly' is taken as 2 s per text (texts are < 2 KB)",
     ]
